@@ -321,6 +321,26 @@ func (tree *HTree) updatePos(ki *KeyInfo, oldPos, newPos Position) bool {
 	return true
 }
 
+// updateVer sets the version of the entry of ki iff the tree still points at pos.
+// Compare and update happen under one lock: GC moves records (updatePos) without
+// taking the bucket's write lock.
+func (tree *HTree) updateVer(ki *KeyInfo, pos Position, ver int32) bool {
+	tree.Lock()
+	defer tree.Unlock()
+
+	var req HTreeReq
+	req.ki = ki
+	tree.getLeaf(ki, &tree.ni)
+	if !tree.leafs[tree.ni.offset].Get(&req) || req.item.Pos != pos {
+		return false
+	}
+	req.Position = pos
+	req.item.Ver = ver
+	tree.getLeafAndInvalidNodes(ki, &tree.ni)
+	tree.setToLeaf(&tree.ni, &req)
+	return true
+}
+
 // remove if same offset or oldPos.ChunkID = -1
 func (tree *HTree) remove(ki *KeyInfo, oldPos Position) {
 	tree.Lock()
